@@ -91,11 +91,11 @@ def gen_wsdl(r, idx, force=None):
     def el_part(name, el, local_decl=None):
         return {"name": name, "element": el, "type": None,
                 "local_decl": decl_mode(0.15, 0.15) if local_decl is None else local_decl,
-                "shadow_px": r.choice(["soap", "tns", "types"] * 5 + ["xsd"])}
+                "shadow_px": r.choice(["soap", "xsd", "tns", "types"])}
 
     def ty_part(name, kind, ty):
         return {"name": name, "element": None, "type": (kind, ty), "local_decl": decl_mode(0.0, 0.12) and "shadow",
-                "shadow_px": r.choice(["soap", "tns", "types"] * 5 + ["xsd"])}
+                "shadow_px": r.choice(["soap", "xsd", "tns", "types"])}
 
     n_ops_total = force.get("n_ops") or r.choice([1, 1, 2, 2, 3, 4])
     layout = force.get("layout") or r.choices(["one", "two_bindings", "same_binding", "two_services"], [62, 22, 8, 8])[0]
@@ -474,25 +474,7 @@ def _trim(nsmap, *qnames):
     return sorted(([k, u] for k, u in out.items()), key=lambda kv: kv[0] or "")
 
 
-COMMON_NS = [("xs", XSD_NS), ("xsi", "http://www.w3.org/2001/XMLSchema-instance"),
-             ("xml", "http://www.w3.org/XML/1998/namespace"), ("xlink", "http://www.w3.org/1999/xlink")]
-
-
-def _scope(nsmap, defect):
-    """the namespace declarations in scope of an element; with `defect` the reading that finding C17-F12 describes
-    (SchemaParser.set_namespace_map: a common prefix xs/xsi/xml/xlink whose namespace is bound to no prefix in scope
-    is (re)bound to that namespace, even when the document binds the prefix to another namespace there)"""
-    if not defect:
-        return nsmap
-    out = dict(nsmap)
-    present = set(out.values())
-    for pre, uri in COMMON_NS:
-        if uri not in present:
-            out[pre] = uri
-    return out
-
-
-def read_lxml(text, finish=True, defect=False):
+def read_lxml(text, finish=True):
     from lxml import etree
 
     root = etree.fromstring(text.encode("utf-8"))
@@ -516,7 +498,7 @@ def read_lxml(text, finish=True, defect=False):
     for m in kids(root, W_ + "message"):
         D["messages"].append({"name": m.get("name"), "ns": [], "parts": [
             {"name": p.get("name"), "element": p.get("element"), "type": p.get("type"),
-             "ns": _trim(_scope(p.nsmap, defect), p.get("element"), p.get("type"))} for p in kids(m, W_ + "part")]})
+             "ns": _trim(p.nsmap, p.get("element"), p.get("type"))} for p in kids(m, W_ + "part")]})
     # the message's own declarations matter only for the prefixes portTypes use to refer to it: fill below
     msg_el = {m.get("name"): m for m in kids(root, W_ + "message")}
     used = {}
@@ -527,7 +509,7 @@ def read_lxml(text, finish=True, defect=False):
         v = el.get("message")
         local = v.split(":", 1)[1] if ":" in v else v
         used.setdefault(local, set()).add(v)
-        return {"name": el.get("name"), "message": v, "ns": _trim(_scope(el.nsmap, defect), v)}
+        return {"name": el.get("name"), "message": v, "ns": _trim(el.nsmap, v)}
 
     def first(el, name):
         k = kids(el, name)
@@ -541,7 +523,7 @@ def read_lxml(text, finish=True, defect=False):
              "faults": [ptm(f) for f in kids(op, W_ + "fault")]} for op in kids(pt, W_ + "operation")]})
     for m in D["messages"]:
         el = msg_el[m["name"]]
-        m["_nsmap"] = dict(_scope(el.nsmap, defect))          # trimmed by finish_message_ns once every portType is known
+        m["_nsmap"] = dict(el.nsmap)          # trimmed by finish_message_ns once every portType is known
 
     def bmsg(el):
         if el is None:
@@ -581,7 +563,7 @@ def read_lxml(text, finish=True, defect=False):
                         "faults": [f.get("name") for f in kids(op, W_ + "fault")]})
         if sb:
             only_attrs(sb[0], {"transport", "style"})
-        D["bindings"].append({"name": b.get("name"), "type": b.get("type"), "ns": _trim(_scope(b.nsmap, defect), b.get("type")),
+        D["bindings"].append({"name": b.get("name"), "type": b.get("type"), "ns": _trim(b.nsmap, b.get("type")),
                               "soap": {"style": sb[0].get("style"), "transport": sb[0].get("transport")} if sb else None,
                               "operations": ops})
     for s in kids(root, W_ + "service"):
@@ -590,7 +572,7 @@ def read_lxml(text, finish=True, defect=False):
             ad = exts(p)
             if len(ad) > 1 or any(e.tag != S_ + "address" for e in ad):
                 raise ValueError("unsupported extension of wsdl:port")
-            ports.append({"name": p.get("name"), "binding": p.get("binding"), "ns": _trim(_scope(p.nsmap, defect), p.get("binding")),
+            ports.append({"name": p.get("name"), "binding": p.get("binding"), "ns": _trim(p.nsmap, p.get("binding")),
                           "address": ad[0].get("location") if ad else None})
         D["services"].append({"name": s.get("name"), "ports": ports})
     return finish_message_ns(D) if finish else D
@@ -610,12 +592,12 @@ def finish_message_ns(D):
     return D
 
 
-def read_lxml_files(files, name="svc.wsdl", seen=(), defect=False):
+def read_lxml_files(files, name="svc.wsdl", seen=()):
     """the document `name` with the WSDL documents it reaches by wsdl:import appended (components of the
     importing document first, as WSDL 1.1 2.1.1 makes both sets available under one target namespace)"""
     from lxml import etree
 
-    D = read_lxml(files[name], finish=False, defect=defect)
+    D = read_lxml(files[name], finish=False)
     root = etree.fromstring(files[name].encode("utf-8"))
     for imp in root:
         if isinstance(imp.tag, str) and imp.tag == "{%s}import" % WSDL_NS:
@@ -624,7 +606,7 @@ def read_lxml_files(files, name="svc.wsdl", seen=(), defect=False):
                 continue        # an XML Schema imported at WSDL level: no WSDL components
             if loc not in files or loc in seen:
                 raise ValueError("unresolvable wsdl:import " + loc)
-            sub = read_lxml_files(files, loc, seen + (name,), defect)
+            sub = read_lxml_files(files, loc, seen + (name,))
             if sub["tns"] != D["tns"] or imp.get("namespace") != D["tns"]:
                 raise ValueError("wsdl:import of another target namespace is outside the fragment")
             for k in ("messages", "port_types", "bindings", "services"):
